@@ -215,11 +215,12 @@ func (a *Act) appendOp(st *State, args []Val, resT types.Type, pos token.Pos) Va
 	for _, ek := range a.elemKeys(et) {
 		H := vc.getHeap(st, ek.key, ek.sort)
 		at := func(arrT, idx string) string { return sel(H, ek.addr(fmt.Sprintf("(elem %s %s)", arrT, idx))) }
-		vc.assume(st.guard, fmt.Sprintf("(forall ((i Int)) (! (=> (and (<= 0 i) (< i (sl_len %s))) (= %s %s)) :pattern (%s)))",
-			sd, at(arr, "i"), at("(sl_arr "+sd+")", "(+ (sl_off "+sd+") i)"), at(arr, "i")))
+		// absolute index j into the fresh array; no arithmetic inside the patterns
+		vc.assume(st.guard, fmt.Sprintf("(forall ((j Int)) (! (=> (and (<= 0 j) (< j (sl_len %s))) (= %s %s)) :pattern (%s)))",
+			sd, at(arr, "j"), sel(H, ek.addr(fmt.Sprintf("(selem %s j)", sd))), at(arr, "j")))
 		if add.Sort != sStr {
-			vc.assume(st.guard, fmt.Sprintf("(forall ((i Int)) (! (=> (and (<= 0 i) (< i %s)) (= %s %s)) :pattern (%s)))",
-				addLen, at(arr, "(+ (sl_len "+sd+") i)"), at("(sl_arr "+add.S+")", "(+ (sl_off "+add.S+") i)"), at(arr, "(+ (sl_len "+sd+") i)")))
+			vc.assume(st.guard, fmt.Sprintf("(forall ((j Int)) (! (=> (and (<= (sl_len %s) j) (< j %s)) (= %s %s)) :pattern (%s)))",
+				sd, nl, at(arr, "j"), sel(H, ek.addr(fmt.Sprintf("(selem %s (- j (sl_len %s)))", add.S, sd))), at(arr, "j")))
 		}
 	}
 	return res
